@@ -125,14 +125,16 @@ def dstep (s : DState) (toks : List String) : DState × List String :=
         else (s, ["bad-op"])
       | none => (s, ["bad-op"])
     | _, _ => (s, ["bad-op"])
-  | ["setscale", n, k] =>
+  | "setscale" :: n :: k :: rrs =>
     match n.toNat?, parseInt? k with
     | some n, some k =>
       match talk n with
       | some _ =>
-        if k ≤ 0 then (s, ["bad-op"]) else
+        if k ≤ 0 || rrs.length > 1 then (s, ["bad-op"]) else
         let (st1, o) := step s.st (.setScale n k)
-        let st2 := (step st1 (.request n false 0 0 65535 65535)).1
+        -- unless told otherwise (4th argument 0) the viewer asks for everything again
+        let noReq := rrs == ["0"]
+        let st2 := if noReq then st1 else (step st1 (.request n false 0 0 65535 65535)).1
         ({ s with st := st2 }, [showObs s.nscr o])
       | none => (s, ["bad-op"])
     | _, _ => (s, ["bad-op"])
